@@ -22,7 +22,7 @@ theorem mem_cfgVals_inv {toks : List Token} {v : Val} (h : v ∈ cfgVals toks) :
       | none => simp [hf] at hv
       | some p =>
         simp only [hf, Option.map_some, Option.some.injEq] at hv
-        exact ⟨it, p.2, ht, by simpa using hl, by rw [← hv]⟩
+        exact ⟨it, p.2, ht, by simpa using hl, by rw [← hv, hf]⟩
   | all => simp [Token.val?] at hv
   | ipv4 => simp [Token.val?] at hv
   | ipv6 => simp [Token.val?] at hv
@@ -47,6 +47,9 @@ def PlainList (toks : List Token) : Prop :=
 /-- the client address is neither `0.0.0.0` nor `255.255.255.255`, also after masking with the mask of any configured value -/
 def PlainProbe (toks : List Token) (x : Nat) : Prop :=
   x < 2 ^ 128 ∧ x ≠ V4ANY ∧ x ≠ V4NO ∧ ∀ v ∈ cfgVals toks, x &&& v.mask ≠ V4ANY ∧ x &&& v.mask ≠ V4NO
+
+instance (toks : List Token) : Decidable (PlainList toks) := by unfold PlainList; infer_instance
+instance (toks : List Token) (x : Nat) : Decidable (PlainProbe toks x) := by unfold PlainProbe; infer_instance
 
 theorem tame_of_plain {toks : List Token} (h : PlainList toks) : Tame (ctxOf toks) := by
   refine ⟨?_, ?_, ?_⟩
@@ -178,7 +181,7 @@ theorem parseFrom_flags :
           cases hm : merge acl.tree v (ev ++ ev1) with
           | ok t' ev2 =>
             simp only [hm] at h
-            exact ih _ _ _ _ h
+            exact ih { acl with tree := t' } _ _ _ h
           | dangling => simp [hm] at h
           | fuel => simp [hm] at h
 
@@ -226,5 +229,45 @@ theorem matchAll_keeps : ∀ (xs : List Nat) (acl : Acl) (acc : List Bool),
     simp only []
     rw [h1.1, h1.2.1, h1.2.2]
     exact h2
+
+/-! ### executable side conditions (for the examples) and permutations -/
+
+/-- executable form of "keyword, legacy spelling of `all`, or regular numeric token" -/
+def Token.okB : Token → Bool
+  | .item it => isLegacyAll it || it.regularB
+  | _ => true
+
+theorem regularList_of_okB {toks : List Token} (h : toks.all Token.okB = true) : RegularList toks := by
+  intro it ht
+  have := (List.all_eq_true.mp h) _ ht
+  simp only [Token.okB, Bool.or_eq_true] at this
+  rcases this with h1 | h2
+  · exact Or.inl h1
+  · exact Or.inr (regular_of_regularB h2)
+
+theorem cfgVals_perm {a b : List Token} (h : a.Perm b) (v : Val) : v ∈ cfgVals a ↔ v ∈ cfgVals b :=
+  (h.filterMap Token.val?).mem_iff
+
+theorem unionB_perm {a b : List Token} (h : a.Perm b) (x : Nat) : unionB a x = unionB b x := h.any_eq
+
+theorem regularList_perm {a b : List Token} (h : a.Perm b) (hr : RegularList a) : RegularList b :=
+  fun it ht => hr it (h.mem_iff.mpr ht)
+
+theorem tame_perm {a b : List Token} (h : a.Perm b) (ht : Tame (ctxOf a)) : Tame (ctxOf b) := by
+  have e : ∀ v, v ∈ cfgVals b ↔ v ∈ cfgVals a := fun v => (cfgVals_perm h v).symm
+  have lo : ∀ x, (ctxOf b).Elo x → (ctxOf a).Elo x := by rintro x ⟨v, hv, rfl⟩; exact ⟨v, (e v).mp hv, rfl⟩
+  have hi : ∀ x, (ctxOf b).Ehi x → (ctxOf a).Ehi x := by rintro x ⟨v, hv, rfl⟩; exact ⟨v, (e v).mp hv, rfl⟩
+  refine ⟨?_, ?_, ?_⟩
+  · intro h1
+    have := ht.any_hi (hi _ h1)
+    exact ⟨fun x hx => this.1 x (lo x hx), fun x hx => this.2 x (hi x hx)⟩
+  · intro h1 x hx; exact ht.any_lo (lo _ h1) x (lo x hx)
+  · intro h1 x hx; exact ht.no_lo (lo _ h1) x (hi x hx)
+
+theorem probeOK_perm {a b : List Token} (h : a.Perm b) {x : Nat} (hp : ProbeOK (ctxOf a) x) : ProbeOK (ctxOf b) x := by
+  have e : ∀ v, v ∈ cfgVals b ↔ v ∈ cfgVals a := fun v => (cfgVals_perm h v).symm
+  refine ⟨fun v hv => hp.cfg v ((e v).mp hv), ?_, ?_⟩
+  · rintro hx y ⟨v, hv, rfl⟩; exact hp.any hx _ ⟨v, (e v).mp hv, rfl⟩
+  · rintro hx y ⟨v, hv, rfl⟩; exact hp.no hx _ ⟨v, (e v).mp hv, rfl⟩
 
 end SquidModel.Acl.Ip
